@@ -122,7 +122,9 @@ def run(ctx):
     variants = {"OVR": scenario(name="all-ops-overwrite", backup=False, old=True),
                 "NOPROG": scenario(extra=["--no-progress"], name="all-ops-noprogress"),
                 "OVRNP": scenario(extra=["--no-progress"], name="all-ops-overwrite-noprogress", backup=False, old=True),
-                "RND": scenario(extra=neutral, name="all-ops-" + "".join(neutral).replace("-", ""))}
+                "RND": scenario(extra=neutral, name="all-ops-" + "".join(neutral).replace("-", "")),
+                # every clone request answered with success (hook): the files are finished on the reflink path of both drivers
+                "CLONE": scenario(name="all-ops-cloned")}
     ctx.notes["variant RND"] = neutral
     for vn in variants:
         for drv in ("parfile", "parblock"):
@@ -150,7 +152,7 @@ def run(ctx):
         rid = "c04-%s-w%d-%s-%s-%d%s" % (drv, w, sysc, err, when, "-" + plan.replace("=", "") if plan else "")
         the_sc = sc_own if plan == "OWN" else (sc_one if plan and plan.startswith("ONE") else (variants[plan[4:]] if plan and plan.startswith("VAR:") else sc))
         only = plan[4:] if plan and plan.startswith("OBJ:") else None
-        env = {"XCP_VERIF_PLAN": plan} if plan and plan.startswith("cfr") else None
+        env = {"XCP_VERIF_PLAN": plan} if plan and plan.startswith("cfr") else ({"XCP_VERIF_PLAN": "clone=emulate"} if plan == "VAR:CLONE" else None)
         inj_spec = "%s:error=%s:when=%d" % (sysc, err, when) if when > 0 else "%s:error=%s" % (sysc, err)
         rid = rid.replace("/", "_").replace(":", "")
         root_guess = os.path.join(scratch(), "ns-%s" % rid)
